@@ -19,7 +19,7 @@ TECH = {
     "C09": ("runtime postconditions on the real merge(): atom conservation, no open boundary, cut-merge round trip unless a restriction rule is reported, reference expansion over (molecule, acyclic single bond) pairs incl. isotope-labelled and sulfur-halide molecules, both fragment orders and random rootings", "4 C09"),
     "C10": ("runtime monitor at exit of the real MCSSearch.find (also with a process pool) and get_largest_condition: attribution, containment (RDKit substructure) and maximality against the captured condition results; forced-canceled inner searches; exhaustive small result tables", "4 C10"),
     "C11": ("fault injection at the real failure sites of the MCS stage (delay beyond budget, raise, cancelled FindMCS, inner-step failures, line-level delays in the zombie thread, long hangs followed by a clean re-run, real-budget leading timeouts, non-default id column) with run-vs-fault-free comparison and induced-timeout detection", "4 C11"),
-    "C12": ("history and crash-point enumeration over a shared cache directory: cached run vs uncached run of the real Balancer; every truncated / corrupted on-disk state (recursive, cuts at multi-byte characters), real kills at the k-th write and at the k-th statement inside the cache manager's own code (sys.monitoring)", "4 C12"),
+    "C12": ("history and crash-point enumeration over a shared cache directory: cached run vs uncached run of the real Balancer; every truncated / corrupted on-disk state (recursive, cuts at multi-byte characters), real kills at the k-th write and at the k-th statement inside the cache manager's own code (sys.monitoring); entry-addressing stress: the hooked key function driven with 4e5 / 2e6 distinct batches, two batches sharing an address re-run end to end and judged against the uncached run", "4 C12"),
     "C13": ("run-vs-run monitor across thresholds (incl. observed confidences, their float neighbours and +-0.0004) on rows of the real Balancer, with and without the result cache, and back to threshold 0 on the same object", "4 C13"),
     "C14": ("metamorphic monitor: equivalent spellings / molecule orders of one reaction through the real Balancer must give the same verdict and added-fragment multisets (bases incl. ambiguous-completion imbalances, H2 on the reactant side, spectator copies, families with other multiplicities in the same batch; also re-spellings of reactions whose first spelling was declined)", "4 C14 / 9"),
     "C15": ("runtime postcondition on the real remove_atom_mapping against the RDKit-API de-mapping oracle over a periodic-table bracket-atom generator and mapped corpus; map-free outputs of real pipeline runs incl. a default run after a keep-maps run on a shared cache directory", "4 C15"),
